@@ -29,6 +29,7 @@
 //!     faces and the boundary edges (in the direction of their only face) give every boundary vertex exactly one successor
 //!     and one predecessor - closed surfaces with any faces flipped, disks with flipped interior faces.  The hand-built
 //!     meshes of (c) additionally with reversed vertex numbering and with the interior vertices numbered last.
+//! (h) the clauses of (c) on few-face meshes over a 70000-vertex list (vertex ids on both sides of 2^16).
 use super::{close, Report};
 use crate::geom3::{Mesh, Point3};
 use std::collections::HashSet;
@@ -902,8 +903,40 @@ fn run_many_chains(r: &mut Report, p: &Progress) {
     } } }
 }
 
+// ------------------------------------------------------------------------------------------------ (h) large vertex ids
+/// meshes with a few faces over a LARGE vertex list (70000 vertices): vertex ids on both sides of 2^16, ids that agree
+/// modulo 2^16, and ids whose bit 16 lands on another id's low bits when two ids are packed into one word - every
+/// clause of check_mesh (edge table, patches, patch boundaries) against the same brute-force oracles
+fn run_large_ids(r: &mut Report, p: &Progress) {
+    let nv = 70000usize;
+    let verts: Vec<Point3> = (0..nv).map(|i| Point3::new(i as f64 * 0.5, (i % 7) as f64, (i % 11) as f64 * 0.25)).collect();
+    let mut k = 0i64;
+    // two disjoint faces: the first over small ids, the second over every ordered triple of a set mixing small and large ids
+    let pool: [u32; 8] = [2, 8, 65538, 65539, 65541, 65544, 65545, 69999];
+    for first in [[3u32, 5, 9], [65539 + 4, 65536 + 5, 65536 + 9], [9, 65541, 3]] {
+        for a in pool { for b in pool { for c in pool {
+            if a == b || b == c || a == c || first.contains(&a) || first.contains(&b) || first.contains(&c) { continue; }
+            let faces = vec![first, [a, b, c]];
+            k += 1; p.at(&[7, k, a as i64, b as i64, c as i64]);
+            check_mesh(r, &verts, &faces, "two faces without a common vertex over 70000 vertices");
+        } } }
+    }
+    // two separate consistently wound strips of 40 faces, one on low ids and one across / above 2^16; the same with the
+    // second strip shifted so that its ids agree with the first strip's modulo 2^16
+    for base2 in [65530u32, 65536, 65500, 69000] {
+        let mut faces: Vec<[u32; 3]> = Vec::new();
+        for base in [0u32, base2] { for i in 0..40u32 {
+            let a = base + i;
+            faces.push(if i % 2 == 0 { [a, a + 1, a + 2] } else { [a + 1, a, a + 2] });
+        } }
+        k += 1; p.at(&[8, k, base2 as i64]);
+        if in_class(&faces) { check_mesh(r, &verts, &faces, &format!("two separate strips of 40 faces on vertex ids 0.. and {}.. over 70000 vertices", base2)); }
+        else { r.case(); r.check(false, "internal: hand-built mesh is in the stated class", || format!("strips at {}", base2)); }
+    }
+}
+
 pub fn run() -> Option<Report> {
-    let mut r = Report::new("chained_indices: every list of <= 4 pairs over vertex ids 0..5 (406901 lists); clusters_from_sparse: every subset of a 2x2x2 block, a 3x3x1 slab and a 2x2x3 block of voxels (4864 sets, each twice); Mesh::calc_edges / get_patches / get_patch_boundary_points: every ordered list of <= 3 faces over 5 vertices that is consistently wound and free of vertex-only contacts, 11 larger hand-built meshes of that class in 6 storage variants each, create_box (4 sizes) and create_cylinder (steps 3..=16, 2 sizes), repeated 2-3 times per mesh for hash order; every <= 3 face list with an edge in three faces must be refused; each group under a progress watchdog (6 s per input). Vertex-only contacts and inconsistent winding are excluded for calc_edges / patch boundaries (D7). Edge lengths to relative 1e-12 on grids (1x1, 4x3, 12x9), boxes and 12-step cylinders of pitch 5e-6 .. 1 at 5 offsets up to 1e6 from the origin. get_patches on ANY face list (partition and edge-connected patches always, maximality when no directed edge occurs twice): all lists of <= 2 faces over 5 vertices x 64 calls, 3-face lists starting with [0,1,2] / [0,2,1] x 8 calls, box / cylinder / grid / strip / tetrahedron with single faces, pairs, every other and all faces flipped x 64 calls. chained_indices on 1..12 separate chains / closed loops of 1..9 links in 4 storage orders. ROUND 4: the hand-built meshes (+ a disk around the LAST vertex, a 4x4 grid) also with the vertex numbering reversed and with the interior vertices numbered last (lexicographically last edge interior); calc_edges on INCONSISTENTLY wound meshes whose boundary edges still give every boundary vertex one successor and one predecessor (closed surfaces with any faces flipped, disks with flipped interior faces): every such ordered list of 3 faces over 5 vertices and of 4 faces over 4 vertices, boxes / tetrahedron / octahedron / both / 3x3, 4x4, 5x3-with-holes grids with single faces, pairs, every 2nd, every 3rd and the first half of the faces flipped, in 2 storage variants: edge table produced (not Err), each undirected edge once with its length, face -> edges, boundary loops");
+    let mut r = Report::new("chained_indices: every list of <= 4 pairs over vertex ids 0..5 (406901 lists); clusters_from_sparse: every subset of a 2x2x2 block, a 3x3x1 slab and a 2x2x3 block of voxels (4864 sets, each twice); Mesh::calc_edges / get_patches / get_patch_boundary_points: every ordered list of <= 3 faces over 5 vertices that is consistently wound and free of vertex-only contacts, 11 larger hand-built meshes of that class in 6 storage variants each, create_box (4 sizes) and create_cylinder (steps 3..=16, 2 sizes), repeated 2-3 times per mesh for hash order; every <= 3 face list with an edge in three faces must be refused; each group under a progress watchdog (6 s per input). Vertex-only contacts and inconsistent winding are excluded for calc_edges / patch boundaries (D7). Edge lengths to relative 1e-12 on grids (1x1, 4x3, 12x9), boxes and 12-step cylinders of pitch 5e-6 .. 1 at 5 offsets up to 1e6 from the origin. get_patches on ANY face list (partition and edge-connected patches always, maximality when no directed edge occurs twice): all lists of <= 2 faces over 5 vertices x 64 calls, 3-face lists starting with [0,1,2] / [0,2,1] x 8 calls, box / cylinder / grid / strip / tetrahedron with single faces, pairs, every other and all faces flipped x 64 calls. chained_indices on 1..12 separate chains / closed loops of 1..9 links in 4 storage orders. ROUND 4: the hand-built meshes (+ a disk around the LAST vertex, a 4x4 grid) also with the vertex numbering reversed and with the interior vertices numbered last (lexicographically last edge interior); calc_edges on INCONSISTENTLY wound meshes whose boundary edges still give every boundary vertex one successor and one predecessor (closed surfaces with any faces flipped, disks with flipped interior faces): every such ordered list of 3 faces over 5 vertices and of 4 faces over 4 vertices, boxes / tetrahedron / octahedron / both / 3x3, 4x4, 5x3-with-holes grids with single faces, pairs, every 2nd, every 3rd and the first half of the faces flipped, in 2 storage variants: edge table produced (not Err), each undirected edge once with its length, face -> edges, boundary loops; LARGE vertex ids: two vertex-disjoint faces over a 70000-vertex list (3 first faces x every ordered triple of 8 ids on both sides of 2^16, incl. ids that collide when two ids are packed with a 16-bit shift) and two separate 40-face strips on ids 0.. and {65500, 65530, 65536, 69000}..: all clauses of the mesh group (edge table, patches, patch boundaries)");
     guarded(&mut r, "chaining", "pairs (flattened)", run_chains);
     guarded(&mut r, "voxels", "voxels (flattened x,y,z)", run_voxels);
     guarded(&mut r, "mesh", "faces (flattened)", run_small_meshes);
@@ -912,6 +945,7 @@ pub fn run() -> Option<Report> {
     guarded(&mut r, "edge lengths", "case id", run_far_meshes);
     guarded(&mut r, "patches (any winding)", "faces (flattened)", run_flipped_meshes);
     guarded(&mut r, "mesh (inconsistent winding)", "faces (flattened)", run_inconsistent_meshes);
+    guarded(&mut r, "mesh (large vertex ids)", "case id", run_large_ids);
     guarded(&mut r, "chaining", "k chains / links / closed / storage order", run_many_chains);
     Some(r)
 }
